@@ -116,6 +116,8 @@ func init() {
 			{"handshake", [][3]string{{"internal/handshake", "TokenGenerator", "DecodeToken"}, {"internal/handshake", "sessionTicket", "Unmarshal"}, {"internal/handshake", "tokenProtector", "DecodeToken"}}, []string{"/internal/handshake"}, []string{"./internal/handshake/"}},
 			{"http3", [][3]string{{h3, "frameParser", "ParseNext"}, {h3, "", "ParseCapsule"}, {h3, "", "parseHeaders"}, {h3, "", "parseTrailers"}, {h3, "rawConn", "receiveDatagrams"}, {h3, "", "parseSettingsFrame"}}, []string{"/http3"}, []string{"./http3/"}},
 			{"unpacker", [][3]string{{"", "packetUnpacker", "UnpackLongHeader"}, {"", "packetUnpacker", "UnpackShortHeader"}, {"", "Transport", "maybeHandleStatelessReset"}, {"", "Conn", "handleOnePacket"}, {"", "Conn", "handleRetryPacket"}, {"", "Conn", "handleVersionNegotiationPacket"}, {"", "Conn", "handleShortHeaderPacket"}, {"", "Conn", "handleLongHeaderPacket"}, {"", "closedLocalConn", "handlePacket"}, {"", "baseServer", "handlePacketImpl"}, {"", "baseServer", "handleInitialImpl"}, {"", "baseServer", "handle0RTTPacket"}, {"", "Transport", "handlePacket"}}, []string{"NONE"}, []string{"."}},
+			{"unpack-private", [][3]string{{"", "packetUnpacker", "unpackLongHeaderPacket"}, {"", "packetUnpacker", "unpackShortHeaderPacket"}, {"", "packetUnpacker", "unpackShortHeader"}, {"", "packetUnpacker", "unpackLongHeader"}, {"", "packetUnpacker", "UnpackLongHeader"}, {"", "packetUnpacker", "UnpackShortHeader"}}, []string{"NONE"}, []string{"."}},
+			{"hp", [][3]string{{"internal/handshake", "aesHeaderProtector", "apply"}, {"internal/handshake", "chachaHeaderProtector", "apply"}, {"internal/handshake", "longHeaderOpener", "Open"}, {"internal/handshake", "updatableAEAD", "Open"}, {"internal/handshake", "updatableAEAD", "open"}, {"internal/handshake", "longHeaderSealer", "Seal"}, {"internal/handshake", "updatableAEAD", "Seal"}, {"internal/handshake", "", "GetRetryIntegrityTag"}}, []string{"NONE"}, []string{"./internal/handshake/"}},
 			{"sni", [][3]string{{"", "", "findSNIAndECH"}, {"", "initialCryptoStream", "Write"}, {"", "initialCryptoStream", "PopCryptoFrame"}}, []string{""}, []string{"."}},
 			{"uquic-builders", [][3]string{{"", "QUICFrames", "Build"}, {"", "QUICFrames", "BuildForDatagram"}, {"", "QUICRandomFrames", "Build"}, {"", "QUICFlightFrames", "BuildFlight"}, {"", "QUICRandomFlightFrames", "BuildFlight"}, {"", "uPacketPacker", "MarshalInitialPacketPayload"}, {"", "uPacketPacker", "planInitialFlight"}, {"", "uPacketPacker", "plannedInitialPayload"}}, []string{""}, []string{"."}},
 		}
